@@ -271,8 +271,17 @@ MC_ORACLE static void accounting (void) {
 	}
 }
 
+MC_ORACLE static void plain_lockers_done (void) {
+	int t, k;
+	for (t = 0; t < h_nthreads; t++) if (!mc_fiber_done (t)) {
+		int waiting = 0;
+		for (k = 0; k < H_MAXOPS; k++) if (wr[t * H_MAXOPS + k].state == 1) waiting = 1;
+		if (!waiting) mc_fail ("T%d is blocked for ever in an operation that is not a condition-variable wait: nobody is left to wake it", t);
+	}
+}
 static void cv_observer (void) {
 	unsigned left;
+	plain_lockers_done ();
 	accounting ();
 	/* rescue: everything still waiting is released so that the execution can end */
 	nsync_mu_lock (&mu); h_enter (&mu, 1, "nsync_mu_lock");
